@@ -657,15 +657,20 @@ func (t *Target) gnmiRemove(n *pb.Notification) []*ctree.Leaf {
 		t.meta.ResetEntry(path[1])
 	}
 	var leaves []*ctree.Leaf
+	// Metadata leaves are not counted when they are added, so they are not
+	// counted when they are deleted either.
+	var deleted int64
 	f := func(v interface{}) {
 		d := v.(*pb.Notification)
+		if !storedUnderMeta(d) {
+			deleted++
+		}
 		leaves = append(leaves, ctree.DetachedLeaf(toDeleteNotification(d, n.GetTimestamp())))
 	}
 	t.t.WalkDeleted(path, func(v interface{}) bool { return v.(*pb.Notification).GetTimestamp() < n.GetTimestamp() }, f)
 	if len(leaves) == 0 {
 		return nil
 	}
-	deleted := int64(len(leaves))
 	t.meta.AddInt(metadata.LeafCount, -deleted)
 	t.meta.AddInt(metadata.DelCount, deleted)
 	return leaves
@@ -787,6 +792,17 @@ func (t *Target) Reset() {
 		t.t.Delete([]string{root})
 		t.client(ctree.DetachedLeaf(deleteNoti(t.name, root, []string{"*"})))
 	}
+}
+
+// storedUnderMeta reports whether a stored notification is indexed under the
+// metadata root.
+func storedUnderMeta(n *pb.Notification) bool {
+	var suffix *pb.Path
+	if !n.GetAtomic() && len(n.GetUpdate()) > 0 {
+		suffix = n.GetUpdate()[0].GetPath()
+	}
+	p := append(path.ToStrings(n.GetPrefix(), true), path.ToStrings(suffix, false)...)
+	return len(p) > 1 && p[1] == metadata.Root
 }
 
 func joinPrefixAndPath(pr, ph *pb.Path) []string {
